@@ -1,8 +1,144 @@
-"""Thorough tier: sensitivity audit of the rule set (seeded / benign variants of /repo).
+"""Thorough tier: sensitivity audit of a property's rule set.
 
-Filled in by rules/<id>.VARIANTS; see DESIGN.md section 2.4.  (stub until the corpus is built)
+The rule set is run against variants of /repo built by small source edits:
+
+* **seeded** variants break one clause (delete a guard, flip a comparison, drop a sorted(),
+  swap two arguments, move an open() into the loop, ...): the rules must report at least one
+  *additional* violation, in the expected rule, compared with the unmodified current tree;
+* **benign** variants keep behaviour (rename a local, invert an if/else, reorder independent
+  statements, wrap in a helper expression, re-layout): the rules must report exactly the
+  violations of the unmodified current tree.
+
+Only the edited file is materialised, in a scratch overlay directory outside /repo and /verif
+(tempfile; removed as soon as the variant has been judged).  Variants whose anchor text is not
+present exactly once in the current source are *skipped* and counted -- the tree under analysis
+may legitimately differ from the one the variant was written for.
+
+An audit failure means the checker is broken (exit 2, ANALYSIS-ERROR), never a VIOLATION:
+the audit checks the checker, not whatshap.
 """
+import importlib
+import os
+import shutil
+import sys
+import tempfile
+import time
+from multiprocessing import Pool
+
+from .model import AnalysisError
+
+
+def _load_variants(pid):
+    try:
+        mod = importlib.import_module("rules.variants")
+    except ModuleNotFoundError:
+        return []
+    return list(getattr(mod, "VARIANTS", {}).get(pid, []))
+
+
+def _run_rules(pid, root, overlay, tier):
+    """Returns (set of violation keys, list of analysis errors)."""
+    from . import framework as fw
+    from . import cfg as cfgmod
+
+    cfgmod._cfg_cache.clear()
+    propmod = importlib.import_module("rules.%s" % pid.lower())
+    old = os.environ.get("VERIF_OVERLAY")
+    if overlay:
+        os.environ["VERIF_OVERLAY"] = overlay
+    else:
+        os.environ.pop("VERIF_OVERLAY", None)
+    try:
+        ctx, missed = fw.run_property(propmod, root, tier)
+    finally:
+        if old is None:
+            os.environ.pop("VERIF_OVERLAY", None)
+        else:
+            os.environ["VERIF_OVERLAY"] = old
+    keys = {}
+    for o in ctx.obs:
+        if not o.ok:
+            keys[o.key] = o.rule
+    return keys, list(ctx.analysis_errors) + (["floor: " + "; ".join(missed)] if missed else [])
+
+
+def _judge(args):
+    pid, root, variant, base_keys, parent_overlay = args
+    vid, rel, old, new, expect = variant
+    src_path = os.path.join(parent_overlay, rel) if parent_overlay and os.path.exists(os.path.join(parent_overlay, rel)) else os.path.join(root, rel)
+    try:
+        src = open(src_path, encoding="utf-8").read()
+    except OSError:
+        return (vid, "skipped", "file %s missing" % rel)
+    if src.count(old) != 1:
+        return (vid, "skipped", "anchor text occurs %d times" % src.count(old))
+    tmp = tempfile.mkdtemp(prefix="verif_audit_")
+    try:
+        if parent_overlay:
+            shutil.copytree(parent_overlay, tmp, dirs_exist_ok=True)
+        dst = os.path.join(tmp, rel)
+        os.makedirs(os.path.dirname(dst), exist_ok=True)
+        with open(dst, "w", encoding="utf-8") as f:
+            f.write(src.replace(old, new))
+        try:
+            keys, errs = _run_rules(pid, root, tmp, "thorough")
+        except AnalysisError as e:
+            keys, errs = {}, [str(e)]
+        except Exception as e:  # a crash of the checker on a variant is an audit failure
+            return (vid, "crash", "%s: %s" % (type(e).__name__, e))
+    finally:
+        shutil.rmtree(tmp, ignore_errors=True)
+    new_keys = {k: r for k, r in keys.items() if k not in base_keys}
+    gone = [k for k in base_keys if k not in keys]
+    if expect == "silent":
+        if new_keys:
+            return (vid, "false-alarm", "benign variant raised %s" % sorted(new_keys)[:3])
+        if errs:
+            return (vid, "false-alarm", "benign variant broke the analysis: %s" % errs[:2])
+        return (vid, "silent", "")
+    hit = [k for k, r in new_keys.items() if r.startswith(expect)]
+    if hit:
+        return (vid, "detected", hit[0])
+    if new_keys:
+        return (vid, "detected-other-rule", "%s (expected %s)" % (sorted(new_keys)[0], expect))
+    if errs:
+        return (vid, "analysis-error", errs[0])
+    return (vid, "missed", "no additional violation")
 
 
 def thorough_extras(pid, propmod, root, ctx):
-    return {}
+    variants = _load_variants(pid)
+    if not variants:
+        return {"audit": {"variants": 0, "note": "no variants registered for %s" % pid}}
+    t0 = time.time()
+    parent_overlay = os.environ.get("VERIF_OVERLAY") or None
+    base_keys = {o.key: o.rule for o in ctx.obs if not o.ok}
+    jobs = [(pid, root, v, base_keys, parent_overlay) for v in variants]
+    workers = min(16, max(1, len(jobs)))
+    if os.environ.get("VERIF_AUDIT_SERIAL"):
+        results = [_judge(j) for j in jobs]
+    else:
+        with Pool(workers) as pool:
+            results = pool.map(_judge, jobs, chunksize=1)
+    summary = {"detected": 0, "detected-other-rule": 0, "silent": 0, "skipped": 0, "missed": 0, "false-alarm": 0, "crash": 0, "analysis-error": 0}
+    failures = []
+    detail = []
+    for (vid, verdict, info), v in zip(results, variants):
+        summary[verdict] = summary.get(verdict, 0) + 1
+        detail.append({"variant": vid, "file": v[1], "expect": v[4], "verdict": verdict, "info": info})
+        # analysis-error on a seeded variant is acceptable (the run would exit 2, still not a silent pass)
+        if verdict in ("missed", "false-alarm", "crash"):
+            failures.append("%s: %s (%s)" % (vid, verdict, info))
+    out = {
+        "audit": {
+            "variants": len(variants),
+            "seeded": sum(1 for v in variants if v[4] != "silent"),
+            "benign": sum(1 for v in variants if v[4] == "silent"),
+            "summary": summary,
+            "wall_s": round(time.time() - t0, 2),
+            "detail": detail,
+        }
+    }
+    if failures:
+        raise AnalysisError("sensitivity audit failed (the checker, not whatshap, is broken): " + "; ".join(failures))
+    return out
